@@ -158,7 +158,7 @@ def t_re(acc, m, shard, nshard):
 def normalise_grammar(spec):
     """Only grammars expressible in the simple format: every variable has a rule, start owns the first rule,
     Sigma = used terminals, V = variables with rules (unused ones dropped)."""
-    _, V, Sg, rules, S = spec
+    _, V, Sg, rules, S = cfg.start_first(spec)
     lhs = {l for l, _ in rules}
     used_vars = {x for _, rhs in rules for x in rhs if x in V}
     if not used_vars <= lhs or S not in lhs:
@@ -263,11 +263,11 @@ def plan(tier, seed):
             add('t_tm', 2, w=1, g=3, blank=blank, empty_sigma=es)
     add('t_tm', 16, w=2, g=2, blank='_', empty_sigma=False, stride=4 if q else 1, offset=seed)
     add('t_tm', 8, w=2, g=2, blank='□', empty_sigma=True, stride=16 if q else 4, offset=seed)
-    add('t_re', 16, m=6 if q else 7)
+    add('t_re', 64, m=8 if q else 9)
     add('t_cfg', 16, space='cfg2', stride=2 if q else 1, offset=seed)
     add('t_cfg', 16, space='cfg2+', stride=4 if q else 1, offset=seed)
     add('t_cfg', 8, space='cnf3')
-    return {'tasks': tasks, 'bounds': {'spaces': 'DFA(n<=3,k<=2, k=0); NFA(1,k),(2,k) all x eps _/ε x encodings; NFA(3,1,<=3); PDA(1,1,1,<=4), PDA(2,1,1,<=3), PDA(2,2,1,<=2), PDA(2,1,2,<=2) with stack symbols x,$; TM(0,2), TM(1,2), TM(1,3), TM(2,2) with blank _/□ and Sigma possibly empty; RE({}) in 3 printers; expressible grammars of CFG2, CFG2+, CNF(3){}'.format(6 if q else 7, ' (strided)' if q else '')},
+    return {'tasks': tasks, 'bounds': {'spaces': 'DFA(n<=3,k<=2, k=0); NFA(1,k),(2,k) all x eps _/ε x encodings; NFA(3,1,<=3); PDA(1,1,1,<=4), PDA(2,1,1,<=3), PDA(2,2,1,<=2), PDA(2,1,2,<=2) with stack symbols x,$; TM(0,2), TM(1,2), TM(1,3), TM(2,2) with blank _/□ and Sigma possibly empty; RE({}) in 3 printers; expressible grammars of CFG2, CFG2+, CNF(3){}'.format(8 if q else 9, ' (strided)' if q else '')},
             'exhaustive': True,
             'rule': 'every object of the spaces with a printable epsilon/blank: parse(print(x)) compared field by field with x; expressions: exact language equality and identical printed form after re-parsing; grammars: == and own field-wise comparison; non-trivial = object with >= 2 transitions / >= 4 nodes / >= 3 rules',
             'assumptions': ['epsilon \'\' is not printable and not in the space', 'only grammars expressible in the simple format (every variable has a rule, start variable owns the first rule)']}
